@@ -430,6 +430,44 @@ def run_v1(ctx: C.Ctx):
                 pend.append((case, outs[-1], built))
         finally:
             built.close()
+    # ---- key case AUTO: a document that spells one field twice has no unknown key, yet `len(o) != i`
+    for jj, policy in enumerate(['raise', 'catchall-default']):
+        i = v1streams.OFFSET + n + jj
+        if ctx.done(i):
+            break
+        nm = v1streams.Namer(n + jj)
+        meta = {'v1': True, 'v1_key_case': 'AUTO'}
+        fields = [{'name': 'my_field'}]
+        ftys = [['my_field', T('int')]]
+        if policy == 'raise':
+            meta['v1_on_unknown_key'] = 'RAISE'
+        else:
+            fields.append({'name': 'extras_fld', 'catch_all': True, 'dflt': ['lit', None], 'factory': False})
+            ftys.append(['extras_fld', T('any')])
+        ty = {'k': 'cls', 'info': {'name': nm('A'), 'fields': fields, 'wizard': True, 'meta': meta}, 'ftys': ftys}
+        built = model.Built(ty)
+        try:
+            if not ctx.begin_case(i):
+                continue
+            doc = {'my_field': 1, 'myField': 2}
+            case = {'ty': ty, 'doc': repr(doc), 'engine': 'v1', 'probe': 'two-spellings', 'policy': policy}
+            ctx.seen('unknown:v1:two-spellings', case)
+            out = load_outcome(lambda: fromdict(built.root, dict(doc)))
+            src = dict(src=built.source)
+            if out[0] == 'err':
+                e = out[1]
+                key = 'v1-two-spellings-counted-once' if isinstance(e, UnknownKeysError) and not v1streams.unknown_keys_of(e) else None
+                ctx.fail('unknown:v1:two-spellings', case, f'a document without unknown keys (one field spelled twice under key case AUTO) was rejected: '
+                         f'{type(e).__name__} naming {getattr(e, "unknown_keys", None)!r}', key=key, detail=src)
+            elif policy != 'raise' and out[1].extras_fld is not None:
+                ctx.fail('unknown:v1:two-spellings', case, f'no unknown keys, yet the catch-all field holds {out[1].extras_fld!r} instead of its default None',
+                         key='v1-two-spellings-counted-once' if out[1].extras_fld == {} else None, detail=src)
+            st = model.StdTables()
+            st.add_json(doc)
+            reqs.append({'op': 'loadv1', 'ty': model.enc_ty(ty), 'doc': model.enc_j(doc), 'std': st.build()})
+            pend.append((case, out, built))
+        finally:
+            built.close()
     if ctx.model_available:
         outs_m = ctx.driver.run(reqs)
         for (case, out, built), o_ in zip(pend, outs_m):
